@@ -33,6 +33,15 @@ func init() {
 		if os.Getenv("DBGSTALE") != "" {
 			debugStale(p)
 		}
+		if os.Getenv("DBGCYCLES") != "" {
+			for _, comp := range recursiveCycles(p) {
+				var ns []string
+				for _, f := range comp {
+					ns = append(ns, fname(f))
+				}
+				fmt.Fprintf(os.Stderr, "CYCLE %v\n", ns)
+			}
+		}
 		if os.Getenv("DBGINITORDER") != "" {
 			checkInitOrder(c, p, "DEBUG.initorder", nil)
 		}
